@@ -14,7 +14,7 @@ from sx.harness import exc_site
 
 PROPERTY = "C04"
 LEVEL = "model_checking"
-OPTIONS = {"quick": {"max_paths": 50000, "unit_budget_s": 900}, "thorough": {"max_paths": 500000, "unit_budget_s": 3000}}
+OPTIONS = {"quick": {"max_paths": 50000, "unit_budget_s": 600}, "thorough": {"max_paths": 500000, "unit_budget_s": 3000}}
 BOUNDS = {
     "quick": {"messages": "C01 skeletons without the threshold/rich/wide variants (all kinds, all filter leaves, control forms)", "length_forms": "all nodes long form with 1, 2 or 4 extra octets; each single node long form (+1, +3) in turn", "boolean": "every TRUE octet replaced by a symbolic non-zero octet", "defaults": "criticality FALSE / dnAttributes FALSE inserted wherever absent", "trailing": "one element [context|private, number 12..30, either form] with 0..2 symbolic content octets after the last component of each extensible SEQUENCE, one SEQUENCE at a time"},
     "thorough": {"messages": "all C01 skeletons of the thorough tier except 64 KiB fields", "length_forms": "quick + pairs of nodes", "boolean": "same", "defaults": "same", "trailing": "same + with all-long-form lengths"},
